@@ -438,3 +438,14 @@ func funcShort(fn *ssa.Function) string {
 	s = strings.ReplaceAll(s, ")", "")
 	return s
 }
+
+// fnKey is the name under which a function appears in "call" terms.
+func fnKey(f *ssa.Function) string {
+	if f == nil {
+		return "?"
+	}
+	s := f.String()
+	s = strings.ReplaceAll(s, "github.com/bobertlo/gmars/cmd/gmars.", "cmd.")
+	s = strings.ReplaceAll(s, "github.com/bobertlo/gmars.", "")
+	return s
+}
